@@ -3,7 +3,7 @@
    Every request the library makes to wbxml_malloc / wbxml_realloc during one operation consumes
    one element of the oracle (`true` = granted, `false` = refused, exhausted = granted).  The
    requests, in the order the C issues them:
-     create_real        the struct, then (non-empty data only) the data block
+     create_real        the struct, then (non-empty data whose 32-bit size did not wrap) the data block
      sta_create_real    the struct
      duplicate          = create_real (contents, len, len)
      grow_buff          one realloc, and only when len + size + 1 > malloced
@@ -79,13 +79,17 @@ Definition binary_to_hex_a (o : oracle) (b : buf) (upper : bool) : (buf * bool) 
   else if blen b =? 0 then ((b, true), o)
   else with_grow o b (blen b * 2) (binary_to_hex b upper).
 
-(* None = NULL *)
+(* None = NULL.  The struct is requested first; a size that wrapped is refused (d7df267) before the
+   data block is requested *)
 Definition create_a (o : oracle) (data : list N) (block : N) : option buf * oracle :=
   let (ok1, o1) := alloc o in
   if negb ok1 then (None, o1)
   else match data with
-       | [] => (Some (create data block), o1)
-       | _ => let (ok2, o2) := alloc o1 in if ok2 then (Some (create data block), o2) else (None, o2)
+       | [] => (create_opt data block, o1)
+       | _ => match create_opt data block with
+              | None => (None, o1)
+              | Some b => let (ok2, o2) := alloc o1 in if ok2 then (Some b, o2) else (None, o2)
+              end
        end.
 
 Definition sta_create_a (o : oracle) (data : list N) : option buf * oracle :=
